@@ -409,7 +409,7 @@ int main(int argc, char **argv) {
     { std::vector<double> t; double v = 1.0; for (int i = 0; i < 8; i++) { t.push_back(v); v = std::nextafter(v, INFINITY); } tickvs.push_back(t); } // adjacent doubles
     { std::vector<double> t; for (int i = 0; i < 64; i++) t.push_back(0.1 * i); tickvs.push_back(t); }
     { std::vector<double> t; for (int i = 0; i < 64; i++) t.push_back(-5.0 + i * i * 0.37); tickvs.push_back(t); }
-    { std::vector<double> t; for (int i = 0; i < (thorough ? 2000 : 200); i++) t.push_back(1e-3 * i + 100.3); tickvs.push_back(t); }
+    { std::vector<double> t; for (int i = 0; i < (thorough ? 2000 : 1100); i++) t.push_back(1e-3 * i + 100.3); tickvs.push_back(t); }   // long axis: more ticks than a block-wise search reads at once
     for (size_t tv = 0; tv < tickvs.size(); tv++) {
         long ci = idx++;
         if (!vf::take_case(ci)) continue;
